@@ -199,7 +199,9 @@ func (self *linkedPairs) BuildIndex() {
 	if self.index == nil {
 		self.index = make(map[uint64]int, self.size)
 	}
-	for i := 0; i < self.size; i++ {
+	// iterate backwards so that, for a duplicated key, the index points at its
+	// first occurrence - the one the linear search of Get returns
+	for i := self.size - 1; i >= 0; i-- {
 		p := self.At(i)
 		self.index[p.hash] = i
 	}
